@@ -12,7 +12,7 @@ RULE = (
     "x protocols 0-5 (2-5 for __slots__ classes) + deepcopy; random trees <=40 nodes, depth <=100; distinct = hash of the configuration; trivial = none"
 )
 ASSUMPTIONS = ["depth <= 100 (pickle/deepcopy recursion limits are Python's)", "node classes are importable module-level classes (a pickle requirement)"]
-GATES = ["mon.C19.bijection", "mon.C19.independence", "C19.pickle", "C19.deepcopy", "C19.symlink_inside", "C19.symlink_outside", "C19.link_to_link", "C19.slots", "C19.entry_not_root", "C19.special_method_classes"]
+GATES = ["mon.C19.bijection", "mon.C19.independence", "C19.pickle", "C19.deepcopy", "C19.symlink_inside", "C19.symlink_outside", "C19.link_to_link", "C19.slots", "C19.entry_not_root", "C19.special_method_classes", "C19.after_faulted_history"]
 
 MIXES = ("Node", "AnyNode", "NM", "LM", "MIXSYM", "HNode", "FALSY", "VALNM", "VALLM", "FALSYNODE", "LMSUB", "FALSYLM")
 
@@ -164,7 +164,7 @@ def snapshot_with_attrs(nodes):
     return out
 
 
-def check_copy(ctx, how, entry_idx, nodes, extra, case, rng):
+def check_copy(ctx, how, entry_idx, nodes, extra, case, rng, mutate=True):
     from .. import forest as F
 
     allorig = nodes + extra
@@ -206,6 +206,8 @@ def check_copy(ctx, how, entry_idx, nodes, extra, case, rng):
     if probs:
         ctx.violation("C19/%s/invariant" % kind, "forest-invariant-on-copy", cfg, expected="invariant I", observed=probs[:5])
         return False
+    if not mutate:
+        return True
     # ---- independence: mutate the copy, watch the original; then the other way round
     ctx.count("mon.C19.independence")
     k = len(copies)
@@ -292,9 +294,66 @@ def run(ctx):
         mix = MIXES[r % len(MIXES)]
         hows = hows_for(mix)
         check_tree(ctx, par, mix, {"par": list(par), "mix": mix, "kind": kind}, [0, rng.randrange(n), n - 1], [rng.choice(hows), "deepcopy"], "r%d" % r)
+    histories(ctx)
+
+
+def histories(ctx):
+    """Copies taken from trees with a past: after mutation histories in which some calls were aborted by a raising
+    hook (the copy must reproduce what the original's public attributes show at that moment)."""
+    from .. import trees as TR
+
+    T = ctx.tier == "thorough"
+    nh = (2000 if T else 200) // ctx.nshards + 1
+    for h in range(nh):
+        rng = ctx.rng("hist", h)
+        fam = ("Node", "NM", "LM", "VALNM", "FALSY", "MIX")[h % 6]
+        k = rng.randint(3, 9)
+        last = None
+        for nodes, par, ch, case in TR.evolving_universe(ctx, rng, fam, k, rng.randint(3, 14), fault_rate=0.4):
+            last = (nodes, par, ch, case)
+            if rng.random() < 0.3:
+                if not _copy_from_universe(ctx, rng, fam, *last):
+                    last = None
+                    break
+        if last is not None:
+            _copy_from_universe(ctx, rng, fam, *last)
+
+
+def _copy_from_universe(ctx, rng, fam, nodes, par, ch, case):
+    from .. import ref as RF
+
+    k = len(nodes)
+    e = rng.randrange(k)
+    root = RF.path(par, e)[0]
+    members = RF.preorder_iter(ch, root)
+    tree_nodes = [nodes[x] for x in members]
+    extra = [nodes[x] for x in range(k) if x not in set(members)]
+    hows = ["2", "5", "deepcopy"] if fam == "LM" else ["0", "2", "5", "deepcopy"]
+    how = rng.choice(hows)
+    ctx.count("C19.after_faulted_history")
+    ctx.case(("hist", fam, repr(case["history"])[:200], e, how))
+    with ctx.guard(dict(case, entry=e, how=how)):
+        return check_copy(ctx, how, members.index(e), tree_nodes, extra, dict(case, mix="history:" + fam), rng, mutate=False)
+    return False
 
 
 def replay(ctx, wit):
+    if "history" in wit["case"]:
+        import random
+        from .. import trees as TR
+
+        c = wit["case"]
+        ctx.case(("replay",))
+        fam = c["family"]
+        for nodes, par, ch in TR.replay_universe(c):
+            for e in range(len(nodes)):
+                for how in (["2", "5", "deepcopy"] if fam == "LM" else ["0", "2", "5", "deepcopy"]):
+                    _copy_from_universe(ctx, random.Random(e), fam, nodes, par, ch, c)
+        return
+    _replay_static(ctx, wit)
+
+
+def _replay_static(ctx, wit):
     c = wit["case"]
     ctx.case(("replay",))
     check_tree(ctx, c["par"], c["mix"], {"par": c["par"], "mix": c["mix"]}, [c["entry"]] if "entry" in c else range(len(c["par"])), [c["how"]] if "how" in c else hows_for(c["mix"]), "replay")
